@@ -226,7 +226,8 @@ class Session:
         self.local_connect = None
         self.connect_attempts = []
         self.sim_hook = None
-        self.file_hook = None  # file_hook(event, path): event in open/write/close on state files opened for writing by gwf
+        self.file_hook = None  # file_hook(event, path): event in open/write/close/replace on files opened for writing by gwf
+        self.file_fault_at = None  # the k-th open-for-writing of the command raises OSError(ENOSPC)
         self.touch_events = []
         self.clock = world.clock()
         self._materialise(world)
@@ -331,15 +332,15 @@ class Session:
         bu.subprocess = simsched.PopenShim(self.sim, hook=self.sim_hook)
         bu.shutil = simsched.WhichShim(self.sim)
         patched = []
-        if self.file_hook is not None:
+        patched_os = []
+        self.write_opens = []  # every file gwf opened for writing during this command, in order
+        if self.file_hook is not None or self.file_fault_at is not None:
             import builtins
 
-            import gwf.backends.base as gb
-            import gwf.conf as gc
-            import gwf.core as gco
             import gwf.utils as gu
 
-            hook = self.file_hook
+            hook = self.file_hook or (lambda event, path: None)
+            me = self
 
             class _Proxy:
                 def __init__(self, f, path):
@@ -364,15 +365,40 @@ class Session:
                     return getattr(self._f, k)
 
             def open_proxy(path, mode="r", *a, **kw):
-                f = builtins.open(path, mode, *a, **kw)
                 if "w" in mode or "a" in mode or "+" in mode:
+                    k = len(me.write_opens)
+                    me.write_opens.append(str(path))
+                    if me.file_fault_at == k:
+                        import errno
+
+                        raise OSError(errno.ENOSPC, "No space left on device", str(path))
+                    f = builtins.open(path, mode, *a, **kw)
                     hook("open", str(path))
                     return _Proxy(f, str(path))
-                return f
+                return builtins.open(path, mode, *a, **kw)
 
-            for m in (gb, gc, gco, gu):
-                m.open = open_proxy
-                patched.append(m)
+            class _OsProxy:
+                """`os` as seen by gwf.utils: a crash point right after the rename that publishes a state file (whatever was
+                not flushed to the temporary file by then is not in the published file)."""
+
+                def __getattr__(self, k):
+                    return getattr(os, k)
+
+                def replace(self, src, dst):
+                    os.replace(src, dst)
+                    hook("replace", str(dst))
+
+                def rename(self, src, dst):
+                    os.rename(src, dst)
+                    hook("replace", str(dst))
+
+            for name, m in list(sys.modules.items()):
+                if (name == "gwf" or name.startswith("gwf.")) and m is not None and name != "gwf.backends.local":
+                    m.open = open_proxy
+                    patched.append(m)
+            if "os" in gu.__dict__:
+                gu.os = _OsProxy()
+                patched_os.append(gu)
         import gwf.backends.local as gl
 
         saved_connect = gl.Client.__dict__["connect"]
@@ -402,6 +428,8 @@ class Session:
             gl.Client.connect = saved_connect
             for m in patched:
                 del m.open
+            for m in patched_os:
+                m.os = os
         self.touch_events += list(_AUDIT["events"])
         exc = tb = None
         if r.exception is not None and not isinstance(r.exception, SystemExit):
